@@ -42,6 +42,7 @@ class FnSpec:
         self.origin = None        # spec file
         self.noprobe = False
         self.attrs = []
+        self.is_const = False
 
 
 def load_specs(spec_dir=None):
@@ -63,16 +64,17 @@ def load_specs(spec_dir=None):
                 cur.contract = text
             elif kind == 'loop':
                 cur.loop_ann[sect[1]] = text
-            elif kind in ('before', 'after', 'head', 'after-loop', 'before-loop', 'loop-head', 'loop-tail'):
+            elif kind in ('before', 'after', 'head', 'tail', 'end', 'after-loop', 'before-loop', 'loop-head', 'loop-tail'):
                 cur.inserts.append((kind, sect[1], sect[2], text))
             buf = []
             sect = None
 
         for ln, line in enumerate(open(os.path.join(spec_dir, fn)), 1):
             line = line.rstrip('\n')
-            if line.startswith('=== fn '):
+            if line.startswith('=== fn ') or line.startswith('=== const '):
                 flush()
-                cur = FnSpec(line[len('=== fn '):].strip())
+                cur = FnSpec(line.split(None, 2)[2].strip())
+                cur.is_const = line.startswith('=== const ')
                 cur.origin = fn
                 if cur.name in specs:
                     raise GenError('duplicate spec ' + cur.name)
@@ -97,9 +99,9 @@ def load_specs(spec_dir=None):
                 if m:
                     sect = (m.group(1), m.group(2), int(m.group(3)) if m.group(3) else None)
                     continue
-                m = re.match(r'(head)$', parts)
+                m = re.match(r'(head|tail|end)$', parts)
                 if m:
-                    sect = ('head', None, None)
+                    sect = (m.group(1), None, None)
                     continue
                 m = re.match(r'(after-loop|before-loop|loop-head|loop-tail) (\d+)$', parts)
                 if m:
@@ -107,7 +109,8 @@ def load_specs(spec_dir=None):
                     continue
                 m = re.match(r'(sub|sigsub) (\w+) "(.*)" => "(.*)"$', parts)
                 if m:
-                    (cur.subs if m.group(1) == 'sub' else cur.sigsubs).append((m.group(2), m.group(3), m.group(4)))
+                    unesc = lambda t: t.replace('\\n', '\n')
+                    (cur.subs if m.group(1) == 'sub' else cur.sigsubs).append((m.group(2), unesc(m.group(3)), unesc(m.group(4))))
                     continue
                 raise GenError('%s:%d: bad section header %r' % (fn, ln, line))
             elif cur is not None and sect is None and re.match(r'[a-z-]+:', line):
@@ -376,6 +379,16 @@ def emit_fn(spec, mode, probe=False):
     for (kind, a, occ, text) in spec.inserts:
         if kind == 'head':
             edits.append((1, '\n' + text))
+        elif kind == 'end':
+            edits.append((len(body) - 1, text))
+        elif kind == 'tail':
+            # before the last non-empty line of the body (the trailing expression, if any)
+            inner_end = len(body) - 1
+            k = inner_end
+            while k > 0 and body[k - 1] in ' \t\n':
+                k -= 1
+            ls = body.rfind('\n', 0, k) + 1
+            edits.append((ls, text))
         elif kind in ('after-loop', 'before-loop', 'loop-head', 'loop-tail'):
             if a >= len(heads):
                 raise GenError('lost anchor: loop %d of %s' % (a, spec.name))
@@ -428,7 +441,7 @@ def emit_type(rel, name, keep, extra_attr=''):
     return extra_attr + attrs + sig + body + '\n', em
 
 
-def emit_const(rel, name):
+def emit_const(rel, name, spec=None):
     text, m = load_src(rel)
     try:
         it = rustsrc.find_const(rel, text, m, name)
@@ -442,6 +455,16 @@ def emit_const(rel, name):
     em = Emitted()
     em.name, em.mode, em.src, em.src_line = name, 'const', rel, it.line
     em.sha = hashlib.sha256(it.full.encode()).hexdigest()
+    if spec is not None:
+        # R0d: `const N: T = E;` -> `exec const N: T ensures .. { proof {..} E }` (E verbatim)
+        mm = re.match(r'(\s*pub\s+)const\s+(\w+\s*:\s*[^=]+?)\s*=\s*(.*);\s*$', t, re.S)
+        if not mm:
+            raise GenError('const %s: unexpected shape' % name)
+        head = ''.join(tx for (k, a, o, tx) in spec.inserts if k == 'head')
+        t = '%sexec const %s\n%s{\n%s    %s\n}' % (mm.group(1), mm.group(2), spec.contract, head, mm.group(3))
+        rw.log.append(('R0d', 'const %s given an ensures clause (initialiser verbatim)' % name))
+        em.mode = 'verify'
+        em.clauses = count_clauses(spec.contract, {}, spec.inserts)
     em.rules = rw.log
     return t + '\n', em
 
@@ -538,14 +561,19 @@ def generate_unit(unit_name, specs, probe=False):
                 for a in d[3:]:
                     if a.startswith('keep='):
                         keep = tuple(a[5:].split(','))
+                    if a == 'structural':
+                        extra = '#[derive(Structural)]\n'
                 start = cur_line()
-                txt, em = emit_type(d[1], d[2], keep)
+                txt, em = emit_type(d[1], d[2], keep, extra)
                 out.append(txt)
                 em.gen_start, em.gen_end = start, cur_line() - 1
                 u.items.append(em)
             elif cmd == 'const':
                 start = cur_line()
-                txt, em = emit_const(d[1], d[2])
+                csp = specs.get(d[2]) if (d[2] in specs and specs[d[2]].is_const) else None
+                txt, em = emit_const(d[1], d[2], csp)
+                if csp is not None:
+                    u.verified.append(d[2])
                 out.append(txt)
                 em.gen_start, em.gen_end = start, cur_line() - 1
                 u.items.append(em)
